@@ -835,9 +835,29 @@ func (m *Machine) slice(x, lo, hi, max value) value {
 	panic("unreachable")
 }
 
+// concretize forks over the feasible values of a small symbolic integer.
+func (m *Machine) concretize(v value, what string) int64 {
+	t, ok := v.(*Term)
+	if !ok {
+		return asInt64(v)
+	}
+	if t.IsConst() {
+		return signExt(t.IVal, t.Sort.W)
+	}
+	for k := int64(0); k <= 64; k++ {
+		if m.branch(m.ts.Eq(t, m.ts.BVConst(uint64(k), t.Sort.W))) {
+			return k
+		}
+	}
+	panic(unsupported{"symbolic " + what + " outside 0..64"})
+}
+
 func (m *Machine) makeSlice(instr *ssa.MakeSlice, ln, cp value) value {
-	l := m.concreteInt(ln, "make([]T, n) length")
-	c := m.concreteInt(cp, "make([]T, n) capacity")
+	l := m.concretize(ln, "make([]T, n) length")
+	c := l
+	if lt, ok := ln.(*Term); !ok || cp != value(lt) {
+		c = m.concretize(cp, "make([]T, n) capacity")
+	}
 	if l < 0 || l > 1<<32 {
 		m.tpanic("runtime error: makeslice: len out of range")
 	}
